@@ -4,6 +4,10 @@ package checks
 
 import "verifharness/report"
 
-// c03Schedules is provided by the scheduler build (engine S); this stub keeps the
-// plain build self-contained.
-func c03Schedules(run *report.Run, acc *pairAcc) {}
+// c03Schedules is provided by the scheduler build (engine S); in the plain build
+// (instrumentation refused or failed) the evidence says so.
+func c03Schedules(run *report.Run, acc *pairAcc) {
+	run.Extra["sync_level"] = false
+	run.Extra["sync_level_note"] = "engine S was not available for this run (instrumentation of the current sources failed); only part A (fault sequences with in-order completion) was explored"
+	run.Exhaustive = false
+}
